@@ -43,7 +43,7 @@ func VerifC06Registry() {
 		a, cs, as := freshRelayer("pre", 2)
 		k.RegisterRelayers(ctx, a, cs, as)
 	}
-	c, s := rt.StrN("queryChain", 3), rt.Str("querySigner")
+	c, s := rt.StrN("queryChain", 3), sdk.AccAddress(rt.BytesN("querySigner", 20)).String() // signers are account addresses (built like the registered ones, so that a witness replays natively)
 	before := k.AuthRelayer(ctx, c, s)
 	_, beforeFound := k.GetRelayerAddressOnOtherChain(ctx, c, s)
 	rt.Assert("G6-auth-iff-address-known", before == beforeFound)
